@@ -27,6 +27,7 @@ def seedStep (σ : Sem V) (inp : ℕ → List V) (vs : List (List V)) (x : Op ×
   | .tcat ss => List.zipWith (σ.g2 n) (gv vs (ss.headD 0)) (gv vs (ss.getD 1 0))
   | .cat ss => (ss.map (gv vs)).flatten
   | .flat s m => ((gv vs s).map fun v => (List.range m).map fun p => σ.sp n p v).flatten
+  | .reuse s o _ c _ => (idxFrom 0 c).map fun co => σ.post o co (σ.b o co + mix (σ.L o co) 0 (gv vs s))
   | .output s => gv vs s
 
 /-- widths the masks must have at the features-defining layers -/
@@ -34,6 +35,7 @@ def WidthOK (ms : List (List Bool)) (x : Op × ℕ) : Prop :=
   match x.1 with
   | .conv _ c _ => (gm ms x.2).length = c
   | .lin _ c _ => (gm ms x.2).length = c
+  | .reuse _ _ _ c _ => (gm ms x.2).length = c
   | _ => True
 
 /-- one step: on a prefix where PIT and seed values agree (and the export invariant holds), they
@@ -50,6 +52,10 @@ theorem pit_step_eq_seed (σ : Sem V) (ms : List (List Bool)) (inp : ℕ → Lis
     simp only [WidthOK] at hw
     rw [hall, hw, maskedLayer_all_true]
   | lin s c a =>
+    simp only [pitStep, seedStep]
+    simp only [WidthOK] at hw
+    rw [hall, hw, maskedLayer_all_true]
+  | reuse s o ls c a =>
     simp only [pitStep, seedStep]
     simp only [WidthOK] at hw
     rw [hall, hw, maskedLayer_all_true]
@@ -188,6 +194,7 @@ theorem aliveMasks_open (p : Prog) (l : List ℕ) (α : ℕ → List Rat) (hws :
       | nil => exact allTrue_nil
       | cons s ss => exact down s (by rw [hop]; simp [Op.inputs])
     | flat s m => simp only [maskStep]; exact allTrue_expand _ _ (down s (by rw [hop]; simp [Op.inputs]))
+    | reuse s o ls c a => simp only [maskStep]; exact ownMask_open p l α hα n
     | output s => simp only [maskStep]; exact down s (by rw [hop]; simp [Op.inputs])
 
 /-- the widths the seed network's layers have are the widths of their masks -/
@@ -204,6 +211,11 @@ theorem widthOK_of_bookkeeping (p : Prog) (l : List ℕ) (α : ℕ → List Rat)
     simp only [maskStep]
     rw [ownMask_length_defining p l α hok n hn (by rw [hop]; rfl), width_eq p hsb n hn, hop]; rfl
   | lin s c a =>
+    simp only
+    rw [alive_eq p l α hsb n hn, hop]
+    simp only [maskStep]
+    rw [ownMask_length_defining p l α hok n hn (by rw [hop]; rfl), width_eq p hsb n hn, hop]; rfl
+  | reuse s o ls c a =>
     simp only
     rw [alive_eq p l α hsb n hn, hop]
     simp only [maskStep]
